@@ -1,5 +1,6 @@
 """C13 - signature and commitment lock builders: exactly the intended holder can unlock."""
 import random, sys
+from ..par import SafePool
 from ..common import Report, REPO
 from .. import scncheck
 from ..gen.progs import push, op
@@ -210,7 +211,7 @@ def main(tier: str, seed: int) -> int:
     scncheck.mc(rep, 'Locks', 'ms', INV, run_mc, workers=8, consts=consts)
     import multiprocessing as mp
     n = 10000 if quick else 60000
-    with mp.get_context('fork').Pool(14) as pool:
+    with SafePool(14) as pool:
         cases = [c for ch in pool.map(record_random, [(seed * 53 + i, n // 28) for i in range(28)]) for c in ch]
     scncheck.judge(rep, 'Locks', [], cases, 'random lock scenarios', consts=consts)
     return rep.finish()
